@@ -79,8 +79,17 @@ def keep_set(facts):
     return b, K
 
 
+THOROUGH_CONFIGS = ["parse-none", "parse-core", "parse-core-utf8"]
+
+
 def run(ctx):
     rep, facts = ctx.report, ctx.facts
+    if ctx.tier == "thorough":
+        for cfg in THOROUGH_CONFIGS:
+            if cfg in ctx.configs:
+                f2, r2 = ctx.configs[cfg], rep.scoped(cfg)
+                r2.guarded("encoding", "State/Action", lambda f2=f2, r2=r2: cp.check_encoding(f2, r2))
+                r2.guarded("table", "STATE_CHANGES", lambda f2=f2, r2=r2: cp.check_table(f2, r2))
     rep.guarded("encoding", "State/Action", lambda: cp.check_encoding(facts, rep))
     rep.guarded("table", "STATE_CHANGES", lambda: cp.check_table(facts, rep))
     rep.guarded("keep", "is_printable_bytes", lambda: rule_keep(facts, rep))
